@@ -91,3 +91,21 @@ def reset_params(cfg: dict) -> dict:
     p = dict(defaults)
     p.update({k: v for k, v in r.items() if k in accepted})
     return name, p
+
+
+def synthetic_everything():
+    """a configuration using every stochastic built-in component at once (random reset with random agent,
+    obstacles, teleport-capable chain, stochastic observation): not shipped, assembled for the rng-plumbing checks"""
+    return {
+        'state_space': {'objects': ['Wall', 'Floor', 'Exit', 'MovingObstacle', 'Telepod', 'Key', 'Door'], 'colors': ['NONE', 'RED', 'YELLOW']},
+        'observation_space': {'objects': ['Wall', 'Floor', 'Exit', 'MovingObstacle', 'Telepod', 'Key', 'Door'], 'colors': ['NONE', 'RED', 'YELLOW']},
+        'reset_function': {'name': 'dynamic_obstacles', 'shape': [6, 7], 'num_obstacles': 3, 'random_agent': True},
+        'transition_functions': [{'name': 'move_agent'}, {'name': 'turn_agent'}, {'name': 'actuate_door'}, {'name': 'actuate_box'},
+                                 {'name': 'pickndrop'}, {'name': 'move_obstacles'}, {'name': 'teleport'}],
+        'reward_functions': [{'name': 'reach_exit', 'reward_on': 5.0, 'reward_off': 0.0}, {'name': 'bump_moving_obstacle', 'reward': -1.0},
+                             {'name': 'getting_closer_shortest_path', 'object_type': 'Exit', 'reward_closer': 0.25, 'reward_further': -0.25},
+                             {'name': 'living_reward', 'reward': -0.05}],
+        'observation_function': {'name': 'from_visibility', 'area': [[-4, 0], [-2, 2]], 'visibility_function': {'name': 'stochastic_raytracing'}},
+        'terminating_function': {'name': 'reduce_any', 'terminating_functions': [{'name': 'reach_exit'}, {'name': 'reduce_all', 'terminating_functions': [
+            {'name': 'bump_moving_obstacle'}, {'name': 'overlap', 'object_type': 'MovingObstacle'}]}]},
+    }
